@@ -104,6 +104,9 @@ def ir_cases(rng, tier, only_wf=True):
                     for args in shapes:
                         for lf in leaves:
                             cases.append("1 %d | %s" % (ti, " ".join(map(str, method_row(recv, im, ret, lf, args)))))
+                            # the same method in a trait with a TYPE PARAMETER (header field 3): leaf 2 is written `T` (T: Copy + 'static)
+                            if lf == 2 or any(a[1] == 2 for a in args):
+                                cases.append("1 %d 1 | %s" % (ti, " ".join(map(str, method_row(recv, im, ret, lf, args)))))
     # default bodies / explicit lifetime generics on the method (flags +4 / +8 of the intmode field) do not change the glue
     for flags in (4, 8, 12):
         for recv in (0, 1, 2):
@@ -132,8 +135,8 @@ def ir_cases(rng, tier, only_wf=True):
             if rng.chance(1, 4):
                 im += rng.choice([4, 8, 12])
             rows.append(method_row(recv, im, ret, rng.below(9), args))
-        cases.append("1 %d | %s" % (ti, " ; ".join(" ".join(map(str, r)) for r in rows)))
-    return cases, {"ir_exhaustive_single_method": n_ex, "ir_random_multi_method": nrand}
+        cases.append("1 %d%s | %s" % (ti, " 1" if rng.chance(1, 3) else "", " ; ".join(" ".join(map(str, r)) for r in rows)))
+    return cases, {"ir_exhaustive_single_method": n_ex, "ir_random_multi_method": nrand, "of_which_in_generic_traits": sum(1 for c in cases if c.split("|")[0].split()[2:3] == ["1"])}
 
 
 # ------------------------------------------------------------------------------------------ structural: groups
